@@ -46,7 +46,7 @@ def pathological(rng, quick):
     for s in ["(", ")", "{", "}", "[", "]", "((((((((", "}}}}}}}}", "int x = (", "int f(", "int a[", "struct s {", "void f() { if (", "void f() { for (;;",
               "\"abc", "'a", "'", "\"", "/* abc", "//", "/", "\\", "\\\n", "int x = \"a\\", "L\"", "u8\"x", "R\"(abc", "R\"x(abc)y\"", "R\"", "LR\"(", "#", "# 1", "#define", "#line",
               "#\n#\n", "# 1 \"f.c\"\nint x;", "int x = 1 {", "sizeof ( x )", "-.1", "( x ) - 1", "__extension__ ;", "x = c ?: (T)*d;", "(T) y", "void f(T x);",
-              "enum { enum x", "enum{enum x ) ;", "struct s { struct", "struct s { enum", "union u { static int", "enum e { typedef", "struct s { int a; static", "_Generic(", "_Generic(x", "_Generic(x,", "_Generic(x, int:", "_Static_assert(", "__attribute__((", "__asm__(", "typeof(", "_Alignas(", "_Atomic(",
+              "enum { enum x", "enum{enum x ) ;", "y={,} , 7 , 8 } } ;", "int a[] = {,};", "int a[] = {,1};", "struct s x = {.};", "int a[] = {[};", "struct s { struct", "struct s { enum", "union u { static int", "enum e { typedef", "struct s { int a; static", "_Generic(", "_Generic(x", "_Generic(x,", "_Generic(x, int:", "_Static_assert(", "__attribute__((", "__asm__(", "typeof(", "_Alignas(", "_Atomic(",
               "int x = {.a", "int x = {[", "enum {", "enum e { A =", "a ? b", "a ? : ", "case", "default", "goto", "return", "do", "while", "for", "switch", "else", "if",
               "int (*", "int (*)(", "int (*f)(int,", "...", "int f(...", "int x, ", "int x = ,", "= 1;", "; ; ;", ",", "->", ".", "++", "x++", "++x", "x.", "x->", "x[", "x(",
               "0x", "0x.", "0x1p", "1e", "1e+", "1.e", "0b", "08", "1u1", "1.0fx", "'\\", "'\\x", "'\\777'", "\"\\u12\"", "\"\\U1234567\"", "\x80", "\xff\xfe", "\xf0\x9f", "a\xf0", "int \xe4\xb8",
